@@ -25,14 +25,105 @@ from values import *
 
 # families the rewrite system is expected to close (confirmed on the reference tree); anything else is "undecided"
 EXPECTED_UNDECIDED_ADTS = {
-    'aes::autodetect', 'aes::soft', 'aes::ni', 'aria::Aria', 'idea::Idea', 'serpent::Serpent', 'kuznyechik::Kuznyechik',
-    'kuznyechik::KuznyechikEnc', 'kuznyechik::KuznyechikDec', 'gift_cipher::Gift128', 'des::des::Des',
+    'aes::autodetect', 'aes::ni', 'aes::armv8', 'aria::Aria', 'idea::Idea', 'kuznyechik::Kuznyechik',
+    'kuznyechik::KuznyechikEnc', 'kuznyechik::KuznyechikDec',
     'speck_cipher::Speck48_72', 'speck_cipher::Speck48_96', 'speck_cipher::Speck96_96', 'speck_cipher::Speck96_144',
 }
 # pure helper functions treated as uninterpreted functions of their arguments (the identity holds for any such function)
 SUMMARIES = {
     'twofish::Twofish': {'twofish::Twofish::g_func': 'twofish_g'},
 }
+# ---- bit-level mode (engine L3b, bitform.py): types whose inverse needs GF(2)-affine reasoning (bit permutations,
+# bitsliced linear layers) and bitsliced S-boxes.  For each listed pair (f, g) of *position-wise* functions the lemma
+#     g(f(u)) = u   and   f(g(u)) = u        (truth tables of the two circuits, a complete normal form)
+# is proved first; then f and g are summarised as an opaque position-wise inverse pair and the round trip is compared
+# in bit-level canonical form.  Pairs are looked up by function name inside the crate; a crate whose functions of that
+# name are gone is reported undecided (not a violation), a pair that exists but is not an inverse pair is a violation.
+BITLEVEL = {
+    'aes::soft': dict(crate='aes', pairs=[('sub_bytes', 'inv_sub_bytes')], kind='inplace', words=8),
+    'serpent::Serpent': dict(crate='serpent', pairs=[('sbox_e%d' % k, 'sbox_d%d' % k) for k in range(8)], kind='value', words=4),
+    'des::des::Des': dict(crate='des', pairs=[], kind=None, words=0),
+    'gift_cipher::Gift128': dict(crate='gift_cipher', pairs=[], kind=None, words=0),
+}
+
+
+def bitlevel_spec(tyname):
+    for a, spec in BITLEVEL.items():
+        if tyname == a or tyname.startswith(a + '::') or tyname.startswith(a + '<'):
+            return spec
+    return None
+
+
+def pw_lemma(m, f1, f2, kind, n):
+    """f2(f1(u)) = u for n symbolic words u, decided by truth tables.  (True|False|None, detail)"""
+    import engine, bitform
+    from interp import State, Ptr
+    if True:
+        equiv.fresh_terms()
+        I = engine.mk_interp(m, 5_000_000)
+        I.summaries = None
+        I.bitcanon = False
+        st = State()
+        pty = I.types[f1['mir']['locals'][1]]
+        sty = pty['t'] if kind == 'inplace' else f1['mir']['locals'][1]
+        w = I.types[I.types[sty]['e']]['w']
+        us = [topint(w, False, T.sym('u%d' % i, w)) for i in range(n)]
+        if kind == 'inplace':
+            I.fresh += 1
+            obj = ('P', 'u', I.fresh)
+            st.mem[obj] = Arr(sty, us)
+            p = Ptr(obj, (), I.usize(0), I.usize(n), None, None, True)
+            for f in (f1, f2):
+                status, r = engine.run(I, f['id'], [p], st)
+                if status != 'ok':
+                    return None, '%s: %s %s' % (f['name'], status, str(r)[:200])
+            outs = [e.term for e in st.mem[obj].e]
+        else:
+            v = Arr(sty, us)
+            for f in (f1, f2):
+                status, v = engine.run(I, f['id'], [v], st)
+                if status != 'ok' or not isinstance(v, Arr):
+                    return None, '%s: %s %s' % (f['name'], status, str(v)[:200])
+            outs = [e.term for e in v.e]
+        if any(o is None for o in outs):
+            return None, 'outputs are not terms'
+        try:
+            tabs, vt = bitform.truth_tables(outs, [u.term for u in us])
+        except bitform.NotPure as e:
+            return None, 'not a position-wise boolean circuit (%s)' % e
+        bad = [i for i in range(n) if tabs[i] != vt[i]]
+        if bad:
+            return False, '%s(%s(u)) does not restore word %d of u (truth tables differ)' % (f2['name'], f1['name'], bad[0])
+        return True, '%d words, %d-row truth tables' % (n, 1 << n)
+
+
+def bitlevel_setup(m, spec):
+    """prove the lemmas; returns (summaries dict, pw inverse dict, lemma records) or (None, None, reason, verdict)"""
+    fns = {}
+    for f in m.fns:
+        if f['crate'] == spec['crate'] and f.get('def_kind') in ('Fn', 'AssocFn') and 'impl_trait' not in f:
+            fns.setdefault(f.get('name'), []).append(f)
+    summaries, inv, recs = {}, {}, []
+    for (a, b) in spec['pairs']:
+        if len(fns.get(a, [])) != 1 or len(fns.get(b, [])) != 1:
+            return None, None, 'functions %s / %s not found (%d / %d instances)' % (a, b, len(fns.get(a, [])), len(fns.get(b, []))), None
+        fa, fb = fns[a][0], fns[b][0]
+        for (x, y) in ((fa, fb), (fb, fa)):
+            ok, detail = pw_lemma(m, x, y, spec['kind'], spec['words'])
+            recs.append(dict(lemma='%s(%s(u)) = u' % (y['name'], x['name']), ok=ok, detail=detail))
+            if ok is False:
+                return None, None, detail, False
+            if ok is None:
+                return None, None, 'lemma %s(%s(u)) = u: %s' % (y['name'], x['name'], detail), None
+        ta, tb = '%s.%s' % (spec['crate'], a), '%s.%s' % (spec['crate'], b)
+        k = 'inplace' if spec['kind'] == 'inplace' else 'deep'
+        summaries[fa['path']] = (k, ta, 'pw')
+        summaries[fb['path']] = (k, tb, 'pw')
+        inv['pw:' + ta] = 'pw:' + tb
+        inv['pw:' + tb] = 'pw:' + ta
+    return summaries, inv, recs, True
+
+
 TDES = ('des::tdes::TdesEde3', 'des::tdes::TdesEee3', 'des::tdes::TdesEde2', 'des::tdes::TdesEee2')
 
 
@@ -63,10 +154,26 @@ def prove_type(job):
         import engine
         for gk in (group_keys or [[]]):
             gk = [tuple(x) for x in gk if x[0] != 'conv'] if gk and gk[0] != 'conv' else []
+            bl = bitlevel_spec(tyname)
+            bl_sum = bl_inv = None
+            lemmas = []
+            if bl is not None:
+                bl_sum, bl_inv, lemmas, verdict = bitlevel_setup(m, bl)
+                if bl_sum is None:
+                    # verdict False: a listed pair is not an inverse pair (violation); None: undecided
+                    out.append(dict(group=[list(x) for x in gk], first='enc', ok=(False if verdict is False else None),
+                                    detail=lemmas, bitlevel=True, lemma_failed=verdict is False))
+                    continue
             for first in ('enc', 'dec'):
-                engine._INTERPS.clear()
-                I = engine.mk_interp(m, 30_000_000)
-                if tyname in TDES:
+                import bitform
+                equiv.fresh_terms()
+                I = engine.mk_interp(m, 60_000_000 if bl else 30_000_000)
+                I.bitcanon = bl is not None
+                T.BITCANON = bl is not None
+                if bl is not None:
+                    I.summaries = dict(bl_sum)
+                    bitform.PW_INVERSES.update(bl_inv)
+                elif tyname in TDES:
                     I.summaries = {'des::des::Des::encrypt': 'desE', 'des::des::Des::decrypt': 'desD'}
                     T.INVERSES.update({'fn:desE': 'fn:desD', 'fn:desD': 'fn:desE'})
                 else:
@@ -76,7 +183,11 @@ def prove_type(job):
                 except Exception as e:
                     import traceback
                     ok, detail = False, 'analysis error: %r %s' % (e, traceback.format_exc()[-300:])
-                out.append(dict(group=[list(x) for x in gk], first=first, ok=ok, detail=detail))
+                finally:
+                    I.bitcanon = False
+                    T.BITCANON = False
+                out.append(dict(group=[list(x) for x in gk], first=first, ok=ok, detail=detail, bitlevel=bl is not None,
+                                lemmas=[l['lemma'] for l in lemmas] if bl else None))
     return (cfgname, tyname, out)
 
 
@@ -113,7 +224,7 @@ def run(chk, facts_by_config):
             gks = r.get('group_keys') or [[]]
             gks = [g for g in gks if not (g and g[0] == 'conv')] or [[]]
             jobs.append((cfgname, F.dir, t['ty'], tyname, gks))
-    wjobs = [(c, F.dir, n) for c, F in facts_by_config.items()
+    wjobs = [(c, F.dir, n) for c, F in facts_by_config.items() if c in ('x64', 'a64', 'x86')
              for n in (WBLOCK_THOROUGH if chk.tier == 'thorough' else WBLOCK_QUICK)]
     wjobs.sort(key=lambda j: -j[2])
     with mp.Pool(min(16, os.cpu_count() or 4)) as pool:
@@ -136,9 +247,19 @@ def run(chk, facts_by_config):
         none = all(o['ok'] is None for o in outs)
         for o in outs:
             key = '%s|%s|%s-first%s' % (cfgname, tyname, o['first'], '|' + str(o['group']) if o['group'] else '')
+            if o.get('lemma_failed'):
+                chk.violation('sbox-inverse-lemma', '%s|%s|lemma' % (cfgname, tyname),
+                              '%s: the bitsliced S-box pair is not an inverse pair: %s' % (tyname, o['detail']))
+                continue
+            if o.get('bitlevel') and o['ok'] is None and 'lemma_failed' in o:
+                if not any(u.startswith(tyname + ': ') for u in chk.undecided):
+                    chk.undecided.append('%s: bit-level mode not applicable (%s)' % (tyname, o['detail']))
+                continue
             if o['ok']:
                 chk.ok('roundtrip-identity', key, dict(type=tyname, order='%s then %s' % (o['first'], 'dec' if o['first'] == 'enc' else 'enc'),
-                                                      group=o['group'], proved=o['detail']) if o['first'] == 'enc' else None)
+                                                      group=o['group'], proved=o['detail'],
+                                                      engine='bit-level (GF(2)-affine normal form + S-box lemmas)' if o.get('bitlevel') else 'word-level terms',
+                                                      lemmas=o.get('lemmas')) if o['first'] == 'enc' else None)
                 proved.setdefault(cfgname, set()).add(tyname)
             elif o['ok'] is None or expected_undecided(tyname):
                 if not any(u.startswith(tyname + ': ') for u in chk.undecided):
@@ -147,7 +268,7 @@ def run(chk, facts_by_config):
             else:
                 chk.violation('roundtrip-identity', key,
                               '%s: %s(%s(x)) = x could not be established by value numbering: %s' % (
-                                  tyname, 'dec' if o['first'] == 'enc' else 'enc', o['first'], o['detail'][:400]))
+                                  tyname, 'dec' if o['first'] == 'enc' else 'enc', o['first'], str(o['detail'])[:400]))
     for cfgname in facts_by_config:
         chk.floor('proved-types', len(proved.get(cfgname, ())), 'proved.' + cfgname)
     chk.extra['proved_types'] = {c: sorted(v) for c, v in proved.items()}
